@@ -45,6 +45,165 @@ let show_zlist l = "[" ^ String.concat "," (List.map string_of_z l) ^ "]"
 
 let arg args i = match List.nth_opt args i with Some a -> a | None -> ""
 
+(* ---- naturals, N, bytes ---- *)
+let rec nat_of_int n = if n <= 0 then O else S (nat_of_int (n - 1))
+let rec int_of_nat = function O -> 0 | S n -> 1 + int_of_nat n
+let n_of_int n = if n = 0 then N0 else Npos (pos_of_int n)
+let int_of_n = function N0 -> 0 | Npos p -> int_of_pos p
+let hex_of_bytes (l : n list) = String.concat "" (List.map (fun b -> Printf.sprintf "%02x" (int_of_n b)) l)
+let bytes_of_hex (s : string) : n list =
+  List.init (String.length s / 2) (fun i -> n_of_int (int_of_string ("0x" ^ String.sub s (2 * i) 2)))
+let cps s = if s = "_" || s = "" then [] else List.map (fun x -> n_of_int (int_of_string x)) (String.split_on_char '.' s)
+let zl s = if s = "_" then [] else zlist s
+let bool_s b = if b then "T" else "F"
+let cmp_s = function Lt -> "i-1" | Eq -> "i0" | Gt -> "i1"
+let str_s (s : n list) = "x" ^ hex_of_bytes (bytes s)
+
+let run_arr op xs ys i j =
+  match op with
+  | "len" -> "i" ^ string_of_int (List.length xs)
+  | "index" -> (match List.nth_opt xs i with Some v -> "i" ^ string_of_z v | None -> "error")
+  | "append" -> show_zlist (zlist_append xs ys)
+  | "slice" -> show_zlist (arr_slice xs (nat_of_int i) (nat_of_int j))
+  | "foldl" -> "i" ^ string_of_z (arr_foldl xs)
+  | "foldr" -> "i" ^ string_of_z (arr_foldr xs)
+  | "map" -> show_zlist (arr_map xs)
+  | "eq" -> bool_s (arr_eqb xs ys)
+  | "cmp" -> cmp_s (arr_compare xs ys)
+  | "show" -> "x" ^ hex_of_bytes (arr_show xs)
+  | _ -> "unknown-arr-op"
+
+let run_str op s t i j c =
+  let ni = nat_of_int i and nj = nat_of_int j in
+  let opt = function None -> "N" | Some k -> "S" ^ string_of_int (int_of_nat k) in
+  match op with
+  | "len" -> "i" ^ string_of_int (int_of_nat (slen s))
+  | "is_empty" -> bool_s (s = [])
+  | "boundary" -> bool_s (is_char_boundary s ni)
+  | "bytes" -> "bx" ^ hex_of_bytes (bytes s)
+  | "split_at" -> (match split_at s ni with Some (a, b) -> "(" ^ str_s a ^ ";" ^ str_s b ^ ")" | None -> "error")
+  | "contains" -> bool_s (contains s t)
+  | "starts_with" -> bool_s (starts_with s t)
+  | "ends_with" -> bool_s (ends_with s t)
+  | "find" -> opt (sfind s t)
+  | "rfind" -> opt (srfind s t)
+  | "trim" -> str_s (trim s)
+  | "trim_start" -> str_s (trim_start s)
+  | "trim_end" -> str_s (trim_end s)
+  | "trim_start_matches" -> str_s (trim_start_matches s t)
+  | "trim_end_matches" -> str_s (trim_end_matches s t)
+  | "append" -> str_s (s @ t)
+  | "append_char" -> str_s (s @ [c])
+  | "from_char" -> str_s [c]
+  | "slice" -> (match slice s ni nj with Some q -> str_s q | None -> "error")
+  | "char_at" -> (match char_at s ni with Some ch -> "i" ^ string_of_int (int_of_n ch) | None -> "error")
+  | "eq" -> bool_s (str_eqb s t)
+  | "cmp" -> cmp_s (str_compare s t)
+  | "show" -> str_s (str_show s)
+  | _ -> "unknown-str-op"
+
+(* ---- derive: parser of the case line (see harness/src/bin/c19/derive.rs) ---- *)
+let parse_env (s : string) : env =
+  List.map (fun d ->
+    match String.index_opt d ':' with
+    | None -> failwith "decl"
+    | Some k ->
+      let rest = String.sub d (k + 1) (String.length d - k - 1) in
+      List.map (fun c ->
+        match String.split_on_char ':' c with
+        | [nm; tys] ->
+          (bytes_of_hex nm,
+           List.map (fun t ->
+             match t.[0] with
+             | 'I' -> TInt | 'S' -> TStr | 'F' -> TSelf | 'P' -> TParam
+             | 'R' -> TRef (nat_of_int (int_of_string (String.sub t 1 (String.length t - 1))))
+             | _ -> failwith "ty") (split ',' tys))
+        | _ -> failwith "ctor") (String.split_on_char '|' rest)) (String.split_on_char '/' s)
+
+let parse_num s i =
+  let st = !i in
+  if !i < String.length s && s.[!i] = '-' then incr i;
+  while !i < String.length s && s.[!i] >= '0' && s.[!i] <= '9' do incr i done;
+  String.sub s st (!i - st)
+
+let parse_hex s i =
+  let st = !i in
+  let ish c = (c >= '0' && c <= '9') || (c >= 'a' && c <= 'f') in
+  while !i < String.length s && ish s.[!i] do incr i done;
+  String.sub s st (!i - st)
+
+let rec parse_gty s i : gty =
+  let c = s.[!i] in incr i;
+  match c with
+  | 'I' -> GInt | 'S' -> GStr
+  | 'D' -> let n = int_of_string (parse_num s i) in incr i; let p = parse_gty s i in incr i; GData (nat_of_int n, p)
+  | _ -> failwith "gty"
+
+let rec parse_val s i : val0 =
+  let c = s.[!i] in incr i;
+  match c with
+  | 'i' -> VInt (z_of_string (parse_num s i))
+  | 's' -> VStr (bytes_of_hex (parse_hex s i))
+  | 'c' ->
+    let k = int_of_string (parse_num s i) in
+    incr i;
+    let args = ref [] in
+    while s.[!i] <> ']' do
+      args := parse_val s i :: !args;
+      if s.[!i] = ',' then incr i
+    done;
+    incr i;
+    VCon (nat_of_int k, List.rev !args)
+  | _ -> failwith "val"
+
+let run_derive e g x y =
+  let e = parse_env e in
+  let g = parse_gty g (ref 0) in
+  let x = parse_val x (ref 0) and y = parse_val y (ref 0) in
+  if not (env_ok e) then "env-not-ok"
+  else if not (wt e g x && wt e g y) then "ill-typed"
+  else hex_of_bytes (dshow e g x) ^ " " ^ hex_of_bytes (dshow e g y) ^ " " ^ bool_s (deq e g x y)
+
+(* ---- json: value syntax of harness/src/bin/c19/json.rs ---- *)
+let rec parse_j s i : jv =
+  let c = s.[!i] in incr i;
+  match c with
+  | 'n' -> JNull | 't' -> JBool true | 'f' -> JBool false
+  | 'i' -> JInt (z_of_string (parse_num s i))
+  | 's' -> JStr (bytes_of_hex (parse_hex s i))
+  | 'a' ->
+    incr i;
+    let xs = ref [] in
+    while s.[!i] <> ']' do
+      xs := parse_j s i :: !xs;
+      if s.[!i] = ',' then incr i
+    done;
+    incr i; JArr (List.rev !xs)
+  | 'o' ->
+    incr i;
+    let kv = ref [] in
+    while s.[!i] <> ']' do
+      let k = bytes_of_hex (parse_hex s i) in
+      incr i;
+      let v = parse_j s i in
+      kv := (k, v) :: !kv;
+      if s.[!i] = ',' then incr i
+    done;
+    incr i; JObj (List.rev !kv)
+  | _ -> failwith "json value"
+
+let rec show_j = function
+  | JNull -> "n" | JBool true -> "t" | JBool false -> "f"
+  | JInt z -> "i" ^ string_of_z z
+  | JStr s -> "s" ^ hex_of_bytes s
+  | JArr l -> "a[" ^ String.concat "," (List.map show_j l) ^ "]"
+  | JObj kv -> "o[" ^ String.concat "," (List.map (fun (k, v) -> hex_of_bytes k ^ ":" ^ show_j v) kv) ^ "]"
+
+let run_json v =
+  let v = parse_j v (ref 0) in
+  let text = ser v in
+  hex_of_bytes text ^ " " ^ (match de text with Some b -> show_j b | None -> "de-failed")
+
 let run (line : string) : string =
   match String.split_on_char ' ' line with
   | [] -> "empty"
@@ -67,6 +226,10 @@ let run (line : string) : string =
      | "lfoldl" -> string_of_z (zlist_foldl (zlist (a 0)))
      | "lfoldr" -> string_of_z (zlist_foldr (zlist (a 0)))
      | "lappend" -> show_zlist (zlist_append (zlist (a 0)) (zlist (a 1)))
+     | "arr" -> run_arr (a 0) (zl (a 1)) (zl (a 2)) (int_of_string (a 3)) (int_of_string (a 4))
+     | "str" -> run_str (a 0) (cps (a 1)) (cps (a 2)) (int_of_string (a 3)) (int_of_string (a 4)) (n_of_int (int_of_string (a 5)))
+     | "derive" -> run_derive (a 0) (a 1) (a 2) (a 3)
+     | "json" -> run_json (a 0)
      | _ -> "unknown-function " ^ f)
 
 let () =
